@@ -79,7 +79,15 @@ ST = 'contracts/strings.c'
 
 CF = 'contracts/c3dframe.c'
 
+RC = 'contracts/records.c'
+
 UNITS = [
+    U('Group_write', RC, 'h_Group_write', ['Group__write/contract_Group__write'], ['C01', 'C03', 'C04', 'C13', 'C14', 'C17', 'C10', 'C18'],
+      replace=['vf_stream_write/contract_vf_stream_write', 'ezc3d__toUpper/contract_ezc3d__toUpper'], unwind=5, timeout=900,
+      level='PB', bound='name <= 127 and description <= 255 characters (format capacity); group without parameters'),
+    U('Group_write_limits', RC, 'h_L_Group_write', ['Group__write/contract_L_Group__write'], ['C17'],
+      replace=['vf_stream_write/contract_vf_stream_write', 'ezc3d__toUpper/contract_ezc3d__toUpper'], unwind=5, timeout=900,
+      props={'memsafe': [], 'ub': [], 'frame': []}),
     U('c3d_frame_guards', CF, 'h_c3d_frame', ['c3d__frame/contract_c3d__frame'], ['C07', 'C10', 'C13', 'C06', 'C18'],
       replace=['Parameters__group__str/contract_dir_Parameters__group__str', 'Group__parameter__str/contract_dir_Group__parameter__str',
                'Points__pointIdx/contract_rec_Points__pointIdx', 'Data__frame__Frame_sz/contract_rec_Data__frame__Frame_sz',
@@ -95,7 +103,7 @@ UNITS = [
       assumes=['the group records are abstracted by a contract of Group::write: at least 5 bytes written after the current '
                'position, earlier bytes untouched (assumed here)']),
     U('Parameters_write_padding', WR, 'h_Z_Parameters_write', ['Parameters__write/contract_Z_Parameters__write'],
-      ['C01', 'C03', 'C14'], replace=['Group__write/contract_abs2_Group__write'], unwind=5, loops=True, timeout=900,
+      ['C01', 'C03', 'C04', 'C14'], replace=['Group__write/contract_abs2_Group__write'], unwind=5, loops=True, timeout=900,
       pre_unwind={'vf_stream_write.0': 5, 'Parameters__write.0': 3},
       level='PB', bound='records ending within 4 blocks of the header (every residue modulo 512)', props={'memsafe': [], 'ub': [], 'frame': []}),
     U('B_Parameter_set_string', PA, 'h_Parameter_set_string', ['Parameter__set__vstr_vsz/contract_Parameter__set__vstr_vsz'],
@@ -156,6 +164,13 @@ UNITS = [
          assumes=['contracts of vf_vec_Frame_push_back / vf_vec_Frame_resize (std::vector<Frame> growth: handles of '
                   'existing frames kept, new frames default-constructed) are assumed'])
      for c in ('append', 'replace', 'extend')] + [
+    U('Data_frame_alias', DA, 'h_Data_frame_alias', ['Data__frame__Frame_sz/contract_alias_Data__frame__Frame_sz'],
+      ['C13', 'C06', 'C10'],
+      replace=['vf_vec_Frame_push_back/contract_vf_vec_Frame_push_back', 'vf_vec_Frame_resize/contract_vf_vec_Frame_resize',
+               'vf_vec_Frame_resize_fill/contract_vf_vec_Frame_resize_fill', 'Frame__add__Frame/contract_shallow_Frame__add__Frame',
+               'Frame__ctor/contract_Frame__ctor_fresh'],
+      unwind=5, timeout=900, level='PB', bound='at most 100000 stored frames',
+      assumes=['contracts of the std::vector<Frame> growth functions are assumed']),
     U('Frame_add_Frame_points', FR, 'h_P_Frame_add_Frame', ['Frame__add__Frame/contract_P_Frame__add__Frame'],
       ['C01', 'C06', 'C08', 'C10', 'C13', 'C18'],
       replace=['Frame__add__Points/contract_Frame__add__Points', 'Frame__add__Analogs/contract_frameonly_Frame__add__Analogs'],
